@@ -34,6 +34,19 @@ type repd struct {
 	canon string
 }
 
+// BigValues are integers that float64 cannot carry exactly: the canonical
+// decoding is lossy, so the oracle for their exact representations (int64,
+// uint64, json.Number) is R1 on the exact value.
+var BigValues = []string{`9007199254740993`, `-9007199254740993`, `9223372036854775807`, `18446744073709551615`, `9007199254740995`,
+	`[9007199254740993]`, `{"a":9223372036854775807}`, `[9007199254740993,9007199254740992]`}
+
+var BigSchemas = []string{
+	`{"minimum":9007199254740992}`, `{"exclusiveMinimum":9007199254740992}`, `{"maximum":9007199254740992}`, `{"exclusiveMaximum":9007199254740994}`, `{"maximum":9007199254740994}`,
+	`{"exclusiveMaximum":9223372036854775808}`, `{"maximum":9223372036854775808}`, `{"minimum":9223372036854775808}`, `{"exclusiveMinimum":-9007199254740992}`, `{"maximum":18446744073709551616}`, `{"exclusiveMaximum":18446744073709551616}`,
+	`{"type":"integer"}`, `{"const":9007199254740992}`, `{"enum":[9007199254740992,9223372036854775808]}`, `{"items":{"exclusiveMinimum":9007199254740992}}`, `{"properties":{"a":{"exclusiveMaximum":9223372036854775808}}}`,
+	`{"uniqueItems":true}`, `{"items":{"maximum":9007199254740992}}`, `{"not":{"minimum":9007199254740994}}`,
+}
+
 func Run(r *ev.Run) {
 	thorough := r.Tier == "thorough"
 	dev := 1
@@ -99,4 +112,46 @@ func Run(r *ev.Run) {
 			r.Sample(map[string]any{"schema": s, "json": v.JSON(), "representation": reps[vi][len(reps[vi])/2].Desc, "canonical_valid": canonV})
 		}
 	})
+	runBig(r)
+}
+
+func runBig(r *ev.Run) {
+	vals := gen.Vals(BigValues...)
+	n := 0
+	for _, sc := range BigSchemas {
+		u, err := ref.NewUniverse(sc, "", nil, nil)
+		if err != nil || u.Closure() != nil {
+			continue
+		}
+		rs, stage, cerr := drive.Compile(sc, nil)
+		if stage != "" {
+			r.Fail(sc, map[string]any{"class": stage, "error": cerr.Error()})
+			continue
+		}
+		for _, v := range vals {
+			want := u.Validate(v)
+			if want.Undefined || want.Err != nil {
+				continue
+			}
+			for _, rp := range gen.Reps(v, 3, 2, gen.RepOpts{}) {
+				if c, ok := ref.CanonGo(rp.V); !ok || c != v.Canon() {
+					continue // not an exact carrier (float64 rounds these values)
+				}
+				key := sc + " ⊢ " + rp.Desc + " (exact integer beyond 2^53)"
+				if r.OnlyKey != "" && r.OnlyKey != key {
+					continue
+				}
+				got, p := drive.Verdict(rs, rp.V)
+				n++
+				if p != "" {
+					r.Fail(key, map[string]any{"class": "panic", "panic": p})
+				} else if got != want.Valid {
+					r.Fail(key, map[string]any{"class": "exact representation judged by a rounded value", "json": v.JSON(), "spec_valid": want.Valid, "valid": got})
+				}
+			}
+		}
+	}
+	r.Eval(n)
+	r.NontrivialN(n)
+	r.Set("exact_big_integer_cases", n)
 }
